@@ -347,12 +347,10 @@ func (r *runner) verify(key string, out *rlwe.Ciphertext, exp *reg, scaleDocumen
 	}
 	mw := maxAbs(exp.vals)
 	// 4x the modelled bound + floating point error of the decoder + one unit of the fixed-point representation
-	// (the last term also covers a few units leaked from the encoder's buffer: in the conjugate-invariant ring with more
-	// than 53 bits of precision Decode does not clear the imaginary parts left by the previous Encode/Decode)
 	if mw > e.maxSeen {
 		e.maxSeen = mw
 	}
-	tol := 4*exp.eps + e.fp(mw+exp.eps) + (4+4*e.maxSeen)/ratFloat(exp.scale)
+	tol := 4*exp.eps + e.fp(mw+exp.eps) + 4/ratFloat(exp.scale)
 	worst, wi := 0.0, -1
 	for i := 0; i < n; i++ {
 		d := cxB(dec[i][0], dec[i][1]).sub(exp.vals[i]).abs()
